@@ -529,6 +529,17 @@ def _history_table(prog: Program, ctx: Ctx) -> None:  # noqa: PLR0912,PLR0915
         ctx.ob("R7", k, ok, f"after {labels}: " + ("all invariants hold" if ok else problem), "src/_griffe/mixins.py")
     ctx.expect_min("R7", n_hist, 250)
     ctx.analysed["histories"] = n_hist
+    # an alias that is not in a tree yet (the producer API builds it first, attaches it later) can be given its target
+    for tkind in ("Function", "Alias"):
+        it.steps = 0
+        try:
+            free = new("Alias", "a", "m.f")
+            tgt_ = new("Function", "f") if tkind == "Function" else new("Alias", "f", "m.g")
+            it.call(next(f_ for f_ in prog.lookup_method(free.cls, "target") if f_.is_setter), free, tgt_)
+            problem = None if free.attrs.get("_target") is tgt_ and free.attrs.get("target_path") == "f" else f"target {free.attrs.get('_target')}, target_path {free.attrs.get('target_path')}"
+        except Raised as r:
+            problem = f"raises {r.exc}"
+        ctx.ob("R7", f"parentless-alias|target = a {tkind}", problem is None, f"`alias.target = <{tkind} f>` on an alias without parent: " + (problem or "target and target path set"), "src/_griffe/models.py")
     # a module replaced by its stubs counterpart (or the stubs by the module) while a resolved alias is registered on it: the alias ends up on
     # whichever module object the tree keeps
     from pathlib import PurePosixPath as PP
